@@ -50,6 +50,12 @@ structure Case where
   /-- the result set has fewer columns than the statement has outputs: every attempt to scan
       a row is refused (ScanArgs), nothing else changes -/
   fewCols : Bool := false
+  /-- op = "pair": two goroutines run the same uncached Statement on one DB, each with its
+      own context.  A (always Run) is held inside the driver's Prepare; B (`pairOp`, context
+      `ctx`) starts while A is held; then A's context is cancelled / expires, or A's Prepare
+      is released (`aEnd` = "cancel" | "deadline" | "release"). -/
+  pairOp : String := ""
+  aEnd : String := ""
 deriving Repr, Inhabited
 
 def Case.onTx (c : Case) : Bool := c.path.startsWith "tx"
@@ -88,7 +94,33 @@ structure Pred where
   appended : List Nat := []
   outcome : String := ""
   finish : List String := []
+  /-- pair cases: the context-carrying driver calls made with A's / with B's context -/
+  evA : List String := []
+  evB : List String := []
 deriving Repr, Inhabited
+
+def ctxBearing (e : Ev) : Bool := e == .prepare || e == .exec || e == .query
+
+/-- a pair case: the two operations are independent runs of an uncached statement, each
+    under its own context; A's Prepare fails with its context's error unless released -/
+def predictPair (c : Case) : Pred :=
+  let base : Script := { hasOutputs := c.hasOutputs, cached := false, fetch := c.fetch, result := 7 }
+  let sA : Script := { base with prepareErr := if c.aEnd == "release" then none else some .ctx }
+  let (rA, wA) := queryGet sA {} {}
+  let (errB, wB, stored, appended) : Option Err × World × Nat × List Nat :=
+    match c.pairOp with
+    | "getall" =>
+      let (r, w) := queryGetAllArgs base [.ok] true {}
+      (r.err, w, 0, r.appended)
+    | "get" =>
+      let (r, w) := queryGet base { dests := 1 } {}
+      (r.err, w, r.stored.getD 0, [])
+    | _ =>
+      let (r, w) := queryGet base {} {}
+      (r.err, w, 0, [])
+  { returns := [renderOpt rA.err, renderOpt errB], inUse := wA.inUse + wB.inUse,
+    stored := stored, appended := appended,
+    evA := (wA.log.filter ctxBearing).map Ev.render, evB := (wB.log.filter ctxBearing).map Ev.render }
 
 /-- run the finisher sequence -/
 def runFinishers (fs : List String) (tx : TX) (w : World) : TX × World × List String :=
@@ -122,6 +154,7 @@ def runCalls (calls : List String) (cancelAt : Option Nat) : Nat → Iter → Wo
     (it, w, out :: outs)
 
 def predict (c : Case) : Pred :=
+  if c.op == "pair" then predictPair c else
   let w0 : World := if c.onTx then { log := [.begin], inUse := 1 } else {}
   let tx0 : TX := {}
   -- transaction finished before the query is created / between creation and run
@@ -199,8 +232,28 @@ deriving Repr, Inhabited
 
 def isFinisher (e : String) : Bool := e == "commit" || e == "rollback"
 
+/-- pair cases: the kinds of the context-carrying driver calls observed with a given mark
+    (entries of `eventCtx` are "kind@mark…") -/
+def Obs.kindsWith (o : Obs) (mark : String) : List String :=
+  o.eventCtx.filterMap fun x =>
+    match x.splitOn "@" with
+    | [k, m] => if m == mark || m.startsWith (mark ++ "+") then some k else none
+    | _ => none
+
+def Case.markB (c : Case) : String := if c.ctx == "nil" then "-" else "MARK-B"
+
+def diffsPair (c : Case) (p : Pred) (o : Obs) : List (String × String) :=
+  (if p.returns != o.returns then [("C20", s!"returns [A, B]: model {p.returns} impl {o.returns}"), ("C16", "concurrent runs")] else []) ++
+  (if p.evA != o.kindsWith "MARK-A" then [("C20", s!"driver calls under A's context: model {p.evA} impl {o.kindsWith "MARK-A"}")] else []) ++
+  (if p.evB != o.kindsWith c.markB then [("C20", s!"driver calls under B's context: model {p.evB} impl {o.kindsWith c.markB}")] else []) ++
+  (if o.eventCtx.length != p.evA.length + p.evB.length then [("C20", s!"driver calls: impl {o.eventCtx}")] else []) ++
+  (if p.inUse != o.inUse then [("C13", s!"inUse: model {p.inUse} impl {o.inUse}")] else []) ++
+  (if c.pairOp == "get" && p.stored != o.stored then [("C15", s!"stored: model {p.stored} impl {o.stored}")] else []) ++
+  (if c.pairOp == "getall" && p.appended != o.appended then [("C15", s!"appended: model {p.appended} impl {o.appended}")] else [])
+
 /-- disagreements between prediction and observation, with the property each touches -/
 def diffs (c : Case) (p : Pred) (o : Obs) : List (String × String) :=
+  if c.op == "pair" then diffsPair c p o else
   let conc := c.onTx && c.concurrent > 0
   let plog := p.log.map Ev.render
   -- with concurrent finishers the place and kind of the single finisher event is not predicted
@@ -308,6 +361,13 @@ def holdsC15 (c : Case) (o : Obs) : Bool :=
 
 /-- C20: a done context runs nothing and is reported; the driver sees the caller's context -/
 def holdsC20 (c : Case) (o : Obs) : Bool :=
+  -- pair: B's context is live, so B must not report a context error (A's context is none of
+  -- its business), and B's statement is prepared and executed under B's own context
+  if c.op == "pair" then
+    let rB := o.returns.getD 1 ""
+    rB != "ctx" && rB != "wrapped(ctx)" &&
+    o.kindsWith c.markB == ["prepare", if c.hasOutputs then "query" else "exec"]
+  else
   -- an earlier query's cancelled context must not govern a later query with a live context
   (if c.preCtx == "cancelled" && !c.ctxDone && c.cancelAt.isNone then
      o.preReturn == "ctx" && o.returns.all (fun r => r != "ctx" && r != "wrapped(ctx)")
